@@ -271,7 +271,7 @@ def run(ctx: Ctx) -> int:
         ctx.count(("swap-fresh", text, text2), nontrivial=True, bucket="swap-onto-fresh-qubit")
         if dd > tolerance(False):
             ctx.violation("rewrite-swap-fresh:" + text2.replace("\n", ";")[:60],
-                          f"an equivalent way of writing a SWAP onto a fresh qubit changed the exact output distribution by {dd:.3g}",
+                          f"an equivalent way of writing the circuit (SWAP onto a fresh qubit as CX CX CX, identities or a gate and its inverse inserted before a SWAP / reset) changed the exact output distribution by {dd:.3g}",
                           {"original": text, "rewritten": text2, "det": False, "rule": "swap-onto-fresh-qubit"})
     # an extra measurement of a fresh qubit in |0> (outcome 0 with certainty) appended after a product measurement, noisy or not, plain or
     # inverted: the other columns keep their distribution and the new column is 0
